@@ -40,6 +40,7 @@ class VirtualTimeLoop(asyncio.SelectorEventLoop):
 
     def _run_once(self):
         self.iterations += 1
+        TICKS[0] += 1
         if (self._ready and self._scheduled
                 and self.iterations - self._last_jump_iter > self.livelock_limit):
             # Busy for `livelock_limit` consecutive iterations: messages keep flowing
@@ -67,6 +68,10 @@ class VirtualTimeLoop(asyncio.SelectorEventLoop):
 
 
 T_V = 300.0
+# number of loop iterations run by any VirtualTimeLoop of this process (spin watchdog in shard.py); RUNNING counts
+# the virtual loops currently inside run()
+TICKS = [0]
+RUNNING = [0]
 
 
 async def vwait(awaitable, t_v: float = T_V):
@@ -90,6 +95,7 @@ def run(coro, t_v: float | None = None):
     Raises Hang if the loop deadlocked before the coroutine finished."""
     loop = VirtualTimeLoop()
     asyncio.set_event_loop(loop)
+    RUNNING[0] += 1
     try:
         if t_v is not None:
             coro = vwait(coro, t_v)
@@ -117,5 +123,6 @@ def run(coro, t_v: float | None = None):
                 loop.run_until_complete(asyncio.gather(*pending, return_exceptions=True))
         except Exception:
             pass
+        RUNNING[0] -= 1
         asyncio.set_event_loop(None)
         loop.close()
